@@ -293,6 +293,71 @@ def shared_case(item):
     return (1, viols[:4], len(viols))
 
 
+def dynamic_case(item):
+    """sub-strategies created while the tree is running (parent= + setup_from_parent)"""
+    bt = rt.bt()
+    root_decl, decl1, decl2, when2 = item
+    data = T.frame(T.TABLES["exact"], 4, ["a", "b", "c"])
+    root = bt.Strategy("r", [], list(root_decl) if root_decl else None)
+    root.use_integer_positions(False)
+    root.setup(data)
+    root.adjust(64.0)
+    root.update(data.index[0])
+    viols = []
+
+    def V(rule, exp, obs):
+        viols.append({"rule": rule, "expected": exp, "observed": obs})
+
+    made = []
+
+    def make(name, decl):
+        c = bt.Strategy(name, [], list(decl) if decl else None, parent=root)
+        c.setup_from_parent()
+        made.append((name, decl))
+        return c
+
+    d1 = make("d1", decl1)
+    root.allocate(16.0, child="d1")
+    tick1 = (decl1 or ["a"])[0]
+    d1.transact(2.0, tick1)
+    root.update(data.index[0])
+    for i in range(1, 4):
+        if i == when2:
+            d2 = make("d2", decl2)
+            root.allocate(8.0, child="d2")
+            d2.transact(1.0, (decl2 or ["b"])[0])
+        root.update(data.index[i])
+    for name, decl in made:
+        c = root[name]
+        exp = sorted(decl) if decl else sorted(data.columns)
+        got = sorted(c.universe.columns)
+        if got != exp:
+            V("structure_universe_columns", {"node": c.full_name, "columns": exp}, got)
+        if c.parent is not root or c.root is not root or c.full_name != "r>" + name:
+            V("structure_parent", "r>" + name, c.full_name)
+        if name not in root.universe.columns:
+            V("structure_universe_columns", {"node": "r", "has_column": name}, sorted(root.universe.columns))
+        else:
+            col = root._universe[name]
+            born = data.index[0] if name == "d1" else data.index[min(when2, 3)]
+            for lab in c.prices.index:
+                if lab < born:
+                    continue  # the child did not exist yet
+                u, pr = float(col.loc[lab]), float(c.prices.loc[lab])
+                if not (abs(u - pr) <= 1e-12 * max(1.0, abs(pr))):
+                    V("substrategy_column_is_child_index", {"child": name, "date": str(lab), "price": pr}, u)
+                    break
+    exp_root = sorted([t for t in (root_decl or []) if t in data.columns] + [n for n, _ in made]) if root_decl else sorted(list(data.columns) + [n for n, _ in made])
+    if sorted(root.universe.columns) != exp_root:
+        V("structure_universe_columns", {"node": "r", "columns": exp_root}, sorted(root.universe.columns))
+    if list(data.columns) != ["a", "b", "c"]:
+        V("structure_input_frame_mutated", ["a", "b", "c"], list(data.columns))
+    mem, pre = root.members, preorder(root)
+    if [id(x) for x in mem] != [id(x) for x in pre]:
+        V("structure_members", [x.full_name for x in pre], [x.full_name for x in mem])
+    return (1, viols[:4], len(viols))
+
+
 def find(recipe, path):
     r = recipe
     for p in path:
@@ -439,6 +504,8 @@ def replay(case):
         return recipe_case([case["where"]])[2]
     if k == "shared":
         return shared_case(tuple(case["where"]))[1]
+    if k == "dynamic":
+        return dynamic_case(tuple(case["where"]))[1]
     if k == "variants":
         return variants_case(case["spec"])[1]
     return nested_case(case["spec"])[1]
@@ -476,6 +543,12 @@ def run(ctx):
             ctx.nontrivial_count += 1
             for v in viols:
                 ctx.violation(dict(v, build=kind, module=MOD, case={"kind": "shared", "where": list(item)}))
+        dyn = [(rd, d1, d2, w2) for rd in (None, ["a", "b"]) for d1 in (None, ["a"], ["a", "c"]) for d2 in (None, ["b"], ["c", "b"]) for w2 in (1, 2, 3, 9)]
+        for item, (n, viols, nv) in ctx.run(kind, MOD, "dynamic_case", dyn, chunksize=2):
+            ctx.add(states=1, transitions=1, traces_validated_against_impl=1, evaluations=1)
+            ctx.nontrivial_count += 1
+            for v in viols:
+                ctx.violation(dict(v, build=kind, module=MOD, case={"kind": "dynamic", "where": list(item)}))
         for spec, (status, viols, ntr) in ctx.run(kind, MOD, "variants_case", vspecs, chunksize=2):
             ctx.add(states=1, transitions=3, traces_validated_against_impl=3, evaluations=1)
             if status == "ok" and ntr:
